@@ -16,7 +16,7 @@ pub const A_PIN: u32 = 2; // a sibling broadcast consumer pins+validates / unpin
 pub const A_SENDER: u32 = 3; // another sender handle is cloned / dropped
 pub const A_CACHE: u32 = 4; // another sender refreshes the cached tail
 pub const A_CONSUMER: u32 = 5; // a sibling consumer handle of my stream is cloned / dropped
-pub const A_CLAIM: u32 = 6; // (kept for the catalogue; folded into A_PUBLISH)
+pub const A_ADDSTREAM: u32 = 6; // another consumer handle completes an add_stream (the published list is replaced), once per call
 
 pub static mut ENV_PER_POINT: usize = 1;
 pub static mut G_ADDING_STREAM: bool = false;
@@ -33,6 +33,10 @@ pub static mut G_POS_CELL: [usize; MAXS] = [0; MAXS]; // address of each stream'
 pub static mut G_CONS_CELL: usize = 0; // address of my stream's consumer count
 pub static mut G_MY_POS_CELL: usize = 0; // address of my stream's position counter
 pub static mut G_HEAD_CELL: usize = 0;
+/// position counter of the stream the environment added during the call (0 = none)
+pub static mut G_EXTRA_POS_CELL: usize = 0;
+/// my consumer handle is a view receiver (move-out flavour: the value must be destroyed before the cursor is released)
+pub static mut G_MY_VIEW: bool = false;
 pub static mut G_ENV_VPIN: [usize; NMAX] = [0; NMAX]; // validated pins held by env consumers
 pub static mut G_MY_PIN: [usize; NMAX] = [0; NMAX]; // my pins
 pub static mut G_MY_VALID: [bool; NMAX] = [false; NMAX]; // my pin on that slot passed the position re-check
@@ -75,6 +79,8 @@ unsafe fn env_reset<RW: QueueRW<Pay>>(w: &World<RW>, mpmc: bool, budget: usize, 
     ENV_TAKEN = [0; 8];
     ENV_PER_POINT = 1;
     G_ME_SENDER = false;
+    G_EXTRA_POS_CELL = 0;
+    G_MY_VIEW = false;
     G_MY_SHARED = false;
     G_MY_SEND_SER = usize::MAX;
     G_MY_STREAM = usize::MAX;
@@ -144,7 +150,7 @@ unsafe fn env_protocol<RW: QueueRW<Pay>>(q: *const MultiQueue<RW, Pay>, kind: u8
             break;
         }
         let act = rt::oracle_u8() as u32;
-        rt::assume(act < 6 && enabled(act));
+        rt::assume(act < 7 && enabled(act));
         let done = if act == A_PUBLISH {
             env_publish_one(q, n)
         } else if act == A_CONSUME {
@@ -155,6 +161,8 @@ unsafe fn env_protocol<RW: QueueRW<Pay>>(q: *const MultiQueue<RW, Pay>, kind: u8
             env_sender(q)
         } else if act == A_CACHE {
             env_cache(q)
+        } else if act == A_ADDSTREAM {
+            env_add_stream(q, n)
         } else {
             env_consumer()
         };
@@ -204,7 +212,34 @@ unsafe fn true_min<RW: QueueRW<Pay>>(q: &MultiQueue<RW, Pay>) -> usize {
         }
         i += 1;
     }
+    if G_EXTRA_POS_CELL != 0 {
+        let p = cell(G_EXTRA_POS_CELL).peek();
+        if p < m {
+            m = p;
+        }
+    }
     m
+}
+
+/// AddStream: another consumer handle of stream j completes an add_stream: a new stream appears in the
+/// published list at stream j's current position (at most once per call).
+unsafe fn env_add_stream<RW: QueueRW<Pay>>(q: &MultiQueue<RW, Pay>, n: usize) -> bool {
+    if G_EXTRA_POS_CELL != 0 || G_K == 0 {
+        return false;
+    }
+    let j = rt::oracle_usize();
+    rt::assume(j < G_K);
+    let mut ok = false;
+    let mut jj = 0;
+    while jj < G_K {
+        if jj == j {
+            let p = cell(G_POS_CELL[jj]).peek();
+            G_EXTRA_POS_CELL = q.tail.vf_env_add_stream(p, n as Index);
+            ok = true;
+        }
+        jj += 1;
+    }
+    ok
 }
 
 unsafe fn any_pending(_n: usize) -> bool {
@@ -420,7 +455,7 @@ unsafe fn guarantee<RW: QueueRW<Pay>>(q: *const MultiQueue<RW, Pay>, kind: u8, a
         let mut s = 0;
         while s < n {
             if s == slot {
-                assert!(G_ENV_VPIN[s] == 0, "C04: claim of a slot that a consumer holds a validated pin on");
+                assert!(G_ENV_VPIN[s] == 0, "C04/C12: claim of a slot that a consumer holds a validated pin on (in single- and in multi-writer mode alike)");
             }
             s += 1;
         }
@@ -459,6 +494,11 @@ unsafe fn guarantee<RW: QueueRW<Pay>>(q: *const MultiQueue<RW, Pay>, kind: u8, a
             if s == slot {
                 G_MY_COMMIT_PUBLISHED = G_PUB_COUNT[s] == old && (*q.data.add(s)).wraps.peek() == old;
                 G_MY_COMMIT_VAL = G_PUB_VAL[s];
+                if G_MY_VIEW && !RW::do_drop() {
+                    // move-out view: once the cursor is released a producer may write the slot
+                    let st = if G_SLOT_ENV[s] { pay::STATE[ENV_SER_BASE + s] } else { pay::STATE[s] };
+                    assert!(st == 2, "C05/C04: the cursor is released before the viewed value was destroyed (a producer can overwrite it while its destructor runs)");
+                }
             }
             s += 1;
         }
